@@ -60,6 +60,8 @@ def gen(rng, tier):
         # instead of *args: the server tries without auth first when the
         # client sent none
         'connect_arity': rng.choice([None, None, 3, 3, 2]),
+        # msgpack serializer: namespace names are arbitrary strings there
+        'msgpack': rng.random() < 0.25,
     }
     npeers = rng.randrange(1, 4)
     ops = []
@@ -70,6 +72,8 @@ def gen(rng, tier):
         p = rng.randrange(npeers)
         ns = rng.choice(NSS)
         k = rng.random()
+        if cfg['msgpack'] and k < 0.38 and rng.random() < 0.15:
+            ns = '*'      # a namespace literally named like the catch-all
         if k < 0.38:
             ops.append(['connect', p, ns, rng.choice(AUTHS),
                         rng.choice(BEHAVIOURS)])
@@ -119,7 +123,7 @@ def run(case):
     cfg = case['cfg']
     w = make_world(cfg['mode'], seed=case['seed'],
                    choices_replay=case.get('choices'),
-                   lat=LATS[cfg['lat']],
+                   lat=LATS[cfg['lat']], msgpack=bool(cfg.get('msgpack')),
                    send_pauses=(0.0, 0.0, 0.001, 0.004)
                    if cfg.get('send_pauses') else None)
     try:
@@ -411,7 +415,7 @@ def _run(case, cfg, w):
                     v.add('accept_answer', '%s answered %s'
                           % (where, answers), ','.join(kinds))
                     continue
-                sid = (answers[0].data or {}).get('sid')
+                sid = (answers[0].data if isinstance(answers[0].data, dict) else {}).get('sid')
                 if not isinstance(sid, str) or sid in all_sids:
                     v.add('sid_not_fresh', '%s: sid %r was used before'
                           % (where, sid))
@@ -430,7 +434,7 @@ def _run(case, cfg, w):
                 if cfg['always_connect']:
                     ok = kinds == ['CONNECT', 'DISCONNECT'] and typed_eq(
                         answers[1].data, want)
-                    sid = (answers[0].data or {}).get('sid') \
+                    sid = (answers[0].data if isinstance(answers[0].data, dict) else {}).get('sid') \
                         if answers else None
                 else:
                     ok = kinds == ['CONNECT_ERROR'] and typed_eq(
